@@ -235,6 +235,16 @@ func (d *Decoder) decompress(claimedUncompressedSize int, rd io.Reader) (decompr
 	if err != nil {
 		return nil, fmt.Errorf("error decompressing payload: %w", err)
 	}
+	// The stream must end exactly here. Reading on makes zlib verify its trailer and
+	// rejects bodies that inflate to more than the claimed size.
+	var extra [1]byte
+	if m, err := io.ReadFull(d.zrd, extra[:]); m != 0 || err != io.EOF {
+		if m != 0 {
+			err = errors.New("more data than claimed")
+		}
+		return nil, fmt.Errorf("error decompressing payload: uncompressed size does not match claimed size %d: %w",
+			claimedUncompressedSize, err)
+	}
 	return decompressed, d.zrd.Close()
 }
 
